@@ -94,7 +94,7 @@ OTHER_LEVEL = {'C20': 'the Gauss-Newton clause (jtj) is proved; the hessian clau
                'C18': 'the wiring of fit into L-BFGS-B is proved for all inputs; that the optimiser stays inside the bounds and never returns a worse point is the assumed contract of scipy.optimize.minimize, exercised by the bounded stand-in',
                'C05': 'wiring of the samplers proved for all inputs; the distributional clause rests on the competing-exponentials theorem (assumed) and is looked at by the bounded statistical stand-in only'}
 # properties whose core functions are not yet under contract: the bounded stand-in always runs and the level is 'exploration'
-INTERIM = {'C17'}
+INTERIM = set()
 LEMMA_PROPS = {'C01': ['distrib_inner'], 'C04': ['sum_nonneg_ge_term'], 'C11': ['sum_nonneg_ge_term'],
                'C10': ['closed_column_sum_zero', 'sum_comm_zero', 'step_keeps_total'],
                'C12': ['sum_perm'], 'C20': ['gram_psd', 'sum_psd', 'pos_closed'], 'C07': ['pos_closed'], 'C13': []}
